@@ -48,3 +48,11 @@ add('C08', 'fault_enumeration', 'exhaustive single-bit fault injection + propert
     'Every single-bit flip inside every CRC-protected block of enumerated seed bundles, and generated bursts up to the CRC width, are fed to the real receive callback and must leave no trace (no delivery, no octets to the CL, seen-set unchanged, pristine copy still processed); every bundle the agent emits in originate/forward/fragment/report scenarios has its CRCs recomputed by a bit-serial reference over the wire octets.',
     'Bit-serial CRC reference; exceptions out of the receive callback count as dropped; exhaustive only for the enumerated seed bundles (24 quick / 400 thorough).',
     'DESIGN.md section 3 C08')
+add('C05', 'exploration', 'property-based testing + boundary grid enumeration; wire-level oracle with an independent RFC 9171 codec and an independent feasibility computation',
+    'Originated and forwarded bundles with payload lengths and MTUs placed on CBOR head-width boundaries are sent through the real transmit chain; everything handed to the convergence layer is parsed independently and checked for size, identity, exact tiling, block replication and CRCs; feasibility of fragmentation is computed with the independent encoder.',
+    'A small band just above the minimum feasible MTU accepts either outcome (the agent sizes conservatively); security policy interplay is covered by C03/C16.',
+    'DESIGN.md section 3 C05')
+add('C19', 'exploration', 'exhaustive enumeration of the flag x report-to x outcome table (672 cells) + property-based variation of bundle content and short histories',
+    'For every combination of report-request flags, report-to value and routing outcome the reports handed to the convergence layer are parsed independently and compared with "requested and occurred", where occurrence is taken from the observed outcome.',
+    'Administrative-record inputs are not generated; for the no-route outcome only the "only if" direction is judged.',
+    'DESIGN.md section 3 C19')
